@@ -76,12 +76,17 @@ pub async fn serve(
                 let store = store.clone();
                 let frame = frame.clone();
                 let command = command.clone();
+                let command_id = command.id;
                 tokio::spawn(async move {
                     if let Err(e) = execute_command(command, &frame, &store).await {
                         tracing::error!("Failed to execute command '{}': {:?}", name, e);
+                        // stamped like every other terminal event, so that the caller can
+                        // tell which call failed
                         let _ = store.append(
                             Frame::builder(format!("{}.error", name), frame.context_id)
                                 .meta(serde_json::json!({
+                                    "command_id": command_id.to_string(),
+                                    "frame_id": frame.id.to_string(),
                                     "error": e.to_string(),
                                 }))
                                 .build(),
